@@ -1,4 +1,6 @@
 mod c01;
+mod c02;
+mod c04;
 mod fw;
 mod gen_dlt;
 mod rng;
@@ -11,6 +13,8 @@ macro_rules! registry {
     ($mac:ident, $id:expr) => {
         match $id {
             "C01" => $mac!(c01::C01),
+            "C02" => $mac!(c02::C02),
+            "C04" => $mac!(c04::C04),
             other => {
                 eprintln!("HARNESS-ERROR unknown check id {}", other);
                 std::process::exit(2);
@@ -19,7 +23,7 @@ macro_rules! registry {
     };
 }
 
-pub const ALL_IDS: &[&str] = &["C01"];
+pub const ALL_IDS: &[&str] = &["C01", "C02", "C04"];
 
 fn arg_val(args: &[String], name: &str) -> Option<String> {
     args.iter()
